@@ -260,5 +260,75 @@ def check_C14(chk):
         c, r = bad[0]
         chk.unproved("correspondence TlsCheck.check_script: messages / results differ from Tls.ipc_send on %d of %d programs" % (len(bad), len(todo)),
                      {"serializer_program": c["body"], "model_term": c["term"], "kinds": c["kinds"], "pre": c["pre"], "observed": r and r["result"]})
+    # receive side: a receive-and-decode issued from inside another value's Deserialize (model: TlsRecv)
+    nlines, ncases = [], []
+    for i in range(400 if thorough else 60):
+        c = {"id": i + 1, "bad": int(rng.random() < 0.3), "prop": int(rng.random() < 0.6), "nafter": rng.randint(0, 4), "ninner": rng.randint(0, 3)}
+        ncases.append(c)
+        nlines.append("id=%(id)d bad=%(bad)d prop=%(prop)d nafter=%(nafter)d ninner=%(ninner)d" % c)
+    recs, _, rc, err = C.run_harness(bins["default"], "nestrecv", nlines, shim=False, timeout=300)
+    ngot = {r["id"]: r for r in recs if r.get("kind") == "nestrecv"}
+    for c in ncases:
+        r = ngot.get(c["id"])
+        why = None
+        if r is None:
+            why = "harness produced no record for a nested receive (crash / panic?): %s" % err[-300:]
+        else:
+            res = r["result"]
+            want = "Err" if (c["bad"] and c["prop"]) else "Ok"
+            if res["outcome"] != want:
+                why = "outer receive result %s, expected %s" % (res["outcome"], want)
+            elif not res["ok"]:
+                why = "an endpoint or region of the outer / inner value is not the one that was embedded at that position: %s" % res["detail"]
+            elif not res["later_ok"]:
+                why = "a plain message received afterwards on the same thread did not decode with its own attachment"
+            elif not all(res["released"]):
+                why = "an attachment not handed to the program is still held after the receive: released=%s" % res["released"]
+            elif r["fds_after"] != r["fds_before"] or r["maps"] != 0:
+                why = "descriptors / mappings left behind: fds %d -> %d, maps %d" % (r["fds_before"], r["fds_after"], r["maps"])
+        if why:
+            fails.append((c, r, why))
+            chk.failing_input("nested receive inside a deserialisation: " + why, {"nestrecv_case": c, "observed": r and r["result"]},
+                              key="nestrecv bad=%(bad)d prop=%(prop)d nafter=%(nafter)d ninner=%(ninner)d" % c)
+            break
+    # ... and the same observations against the model TlsRecv.to_ (attachment identities = endpoint numbers)
+    ntodo = []
+    for c in ncases:
+        r = ngot.get(c["id"])
+        if r is None:
+            continue
+        ni, na = c["ninner"], c["nafter"]
+        some = lambda xs: "[" + "; ".join("Some %d" % x for x in xs) + "]"
+        lst = lambda xs: "[" + "; ".join(str(x) for x in xs) + "]"
+        if c["bad"]:
+            inner_msg, inner_body = "{| tc := []; tr := [] |}", "[DChan 77; DRegion 0; DData]"
+        else:
+            inner_msg = "{| tc := %s; tr := [Some 100] |}" % some([1] + list(range(2, 2 + ni)))
+            inner_body = lst(["DChan 0", "DRegion 0", "DData"] + ["DChan %d" % (1 + j) for j in range(ni)])
+        outer_msg = "{| tc := %s; tr := [Some 101] |}" % some([0] + list(range(2 + ni, 2 + ni + na)))
+        body = lst(["DChan 0", "DData", "DNest (%s) %s %s" % (inner_msg, inner_body, "true" if c["prop"] else "false"), "DData"]
+                   + ["DChan %d" % (1 + j) for j in range(na)] + ["DRegion 0"])
+        d = r["result"]["detail"]
+        gc = [x[-1] for x in d if x[0] in ("before", "after")]
+        gr = [x[-1] for x in d if x[0] == "region"]
+        inn = [x[-1] for x in d if x[0] in ("inner.a", "inner.b")]
+        innr = [x[-1] for x in d if x[0] == "inner.r"]
+        if any(v < 0 for v in gc + gr + inn + innr):
+            continue    # already reported by the oracle above
+        inner_obs = "[(%s, %s)]" % (lst(inn), lst(innr)) if innr else "[]"
+        ntodo.append((c["id"], "check_to (%s) %s %s %s %s %s" % (outer_msg, body, "true" if r["result"]["outcome"] == "Ok" else "false", lst(gc), lst(gr), inner_obs)))
+    nheader = "From Coq Require Import List Bool.\nFrom IPC Require Import TlsRecv.\nImport ListNotations.\n"
+    nres, nerrors = C.coq_eval_sharded(nheader, ntodo, lambda p: "Eval vm_compute in (%d, %s)." % p, "c14n", shard=100)
+    nbad = [i for i, _ in ntodo if nres.get(i) != "true"]
+    if nerrors:
+        chk.unproved("model evaluation (coqc on generated nested-receive cases) failed", nerrors[0][-1500:])
+    if nbad and not fails:
+        c = next(x for x in ncases if x["id"] == nbad[0])
+        chk.unproved("correspondence TlsRecv.check_to: what a nested receive handed out differs from TlsRecv.to_ on %d of %d cases" % (len(nbad), len(ntodo)),
+                     {"nestrecv_case": c, "observed": ngot[c["id"]]["result"], "model_term": dict(ntodo)[c["id"]]})
+    bad = bad + nbad
+    cov["nested_receive_cases"] = len(ncases)
+    cov["nested_receive_validated_against_model"] = len(ntodo)
+    cov["traces_validated_against_impl"] += len(ntodo)
     chk.assumptions += ["std thread-locals and RefCell are modelled as a per-thread record; a Serialize implementation is modelled by the closed action language of Tls.sact"]
     finish_proof(chk, proof_ok, fails, bad)
